@@ -101,12 +101,16 @@ Definition assemble_row (tokens : list string) (etext : string) : string :=
 Definition render_row (outputs lines : list string) (entries : list (string * string)) : string :=
   assemble_row (row_tokens outputs lines) (entries_text entries).
 
-(* the input file of one iteration: the base file copied, then 'name, value' lines appended with open(..., 'a') *)
+(* the input file of one iteration: the base file copied, then the 'name, value' lines appended with open(..., 'a').
+   Current code (commit db0b708): f.write('\n' + input_file_entries) - the sampled lines always start on a new line.
+   input_file_pinned: the code before, f.write(input_file_entries). *)
 Definition NLc : ascii := ascii_of_nat 10.
 Definition entry_line (e : string * string) : string := fst e ++ ", " ++ snd e.
 Definition entries_lines (entries : list (string * string)) : string :=
   join_suffix (String NLc EmptyString) (map entry_line entries).
-Definition input_file (base : string) (entries : list (string * string)) : string := base ++ entries_lines entries.
+Definition input_file (base : string) (entries : list (string * string)) : string :=
+  base ++ String NLc (entries_lines entries).
+Definition input_file_pinned (base : string) (entries : list (string * string)) : string := base ++ entries_lines entries.
 Definition file_lines (s : string) : list string := split_char NLc s.
 
 (* ---------------------------------------------------------------- re-reading a row (main, statistics) *)
